@@ -637,11 +637,20 @@ def target_for(state, cdir, i, name):
     raise ValueError(state)
 
 
-def write_old(rng, target, exp_shapes, smaller):
-    """Pre-existing content written by the harness (astropy): a multi-HDU file, larger than what follows unless `smaller`."""
+def write_old(rng, target, exp_shapes, smaller, same_data_as=None):
+    """Pre-existing content written by the harness (astropy): a multi-HDU file, larger than what follows unless `smaller`; or
+    (same_data_as = the bytes of a fresh write) a file with exactly the data array that is about to be written but other header
+    cards - an earlier output of the same values with a pixel scale that has since been corrected."""
     from astropy.io import fits
     os.makedirs(os.path.dirname(target), exist_ok=True)
-    if smaller:
+    if same_data_as is not None:
+        with fits.HDUList.fromstring(same_data_as) as src:
+            h = fits.PrimaryHDU(np.array(src[0].data))
+        h.header["PIXSCALE"] = 123.456
+        h.header["PIXSCAY"] = 7.0
+        h.header["OLDCARD"] = "stale"
+        hl = fits.HDUList([h])
+    elif smaller:
         hl = fits.HDUList([fits.PrimaryHDU(np.array([[-7.0]]))])
     else:
         shp = exp_shapes[0]
@@ -677,7 +686,10 @@ def file_states(ctx, label, rng, i, flip, root, cdir, parts, writer, reader, cls
         victims = names if state != "present_refused_partial" else [names[1 + int(rng.integers(len(names) - 1))]]
         if present:
             for n in victims:
-                old[n] = write_old(rng, tabs[n], [parts[n].exp.shape], smaller)
+                same = fresh.get(n) if (state == "present_overwrite" and i % 4 == 1) else None
+                old[n] = write_old(rng, tabs[n], [parts[n].exp.shape], smaller, same_data_as=same)
+                if same is not None:
+                    ctx.classes["old_file_same_data_other_header"] += 1
         missing = {n: _missing_dirs(tabs[n]) for n in names}
         existed = {n: os.path.exists(tabs[n]) for n in names}
         tag = "%s|flip%d|%s|%s%s" % (label, flip, kind, state, "+overwrite" if (overwrite and state.startswith("nested")) else "")
